@@ -274,14 +274,16 @@ CHECKS.append({
                  "and 1-UIP resolution lemmas + per-run correspondence with an executable line-by-line CDCL mirror",
     "text": "evalCnf_iff / evalCnf_models (the checker accepts exactly the total assignments making every clause and every "
             "assumption true), pairwiseDistinct_iff / distinctB_iff, dpll_sat_iff, dpll_models_complete, distinct_of_blocked, "
-            "resolve_sound, learn_chain_sound, entailsB_iff. On every explored input every assignment solve_sat returns "
+            "resolve_sound, learn_chain_sound, entailsB_iff, cdcl_returns_models_partial. On every explored input every assignment solve_sat returns "
             "(solution and each entry of solutions) is accepted by evalCnf and the tuple by distinctB; the Cdcl mirror "
             "(watches, binary implications, Float VSIDS, heap, Luby, reduce_db, blocking clauses) must return the same status "
             "and assignments in the same order, and every learned clause it logs is checked entailed.",
-    "note": "[S] cdcl_returns_models (soundness of the CDCL search for ALL inputs) is NOT proved: the all-input theorems cover "
-            "the oracle layer (checker, DPLL, enumerator, resolution); the CDCL loop is mirrored and compared per input. "
-            "Known finding: a formula of empty clauses only is answered {} (pinned by an existing test). Excluded: literal 0, "
-            "solution_limit < 1.",
+    "note": "cdcl_returns_models_partial IS proved (for every input without literal 0 / empty clauses / repeated literals in a "
+            "clause and EVERY parameter setting, every assignment the certifying Cdcl mirror returns is total, satisfies all "
+            "clauses and assumptions, and enumerations are pairwise distinct: two-watched-literal / trail invariant Cdcl.Inv and "
+            "heap invariant HInvX carried through every operation). Open: clauses with a repeated literal; that the mirror's "
+            "GUARD give-up exit never fires (never observed; treated as infrastructure failure). Known finding: a formula of "
+            "empty clauses only is answered {} (pinned by an existing test). Excluded: literal 0, solution_limit < 1.",
 })
 CHECKS.append({
     "property_id": "C02",
@@ -290,12 +292,18 @@ CHECKS.append({
                  "terminating and equal to the Luby sequence; per-run comparison of every verdict with the proved DPLL, "
                  "return-within-limit observed per call, CDCL mirror correspondence",
     "text": "dpll_sat_iff, dpll_unsat_iff, luby_pos, luby_pow2, luby_fuel, luby_is_luby (about the loop translated from "
-            "sat.py on every run), learn_chain_sound, entailsB_iff. INFEASIBLE and model verdicts of solve_sat are compared "
+            "sat.py on every run), learn_chain_sound, entailsB_iff, cdcl_infeasible_sound_partial, cdcl_fuel_suffices_partial, "
+            "upRefutes_sound. INFEASIBLE and model verdicts of solve_sat are compared "
             "with the proved-exact DPLL on every input; MAX_ITER on a satisfiable input of <= 16 variables with default "
             "budgets is a failure; every call must return within its limit (timeouts re-run alone); the mirror's fuel use is "
             "measured against the budget-derived bound.",
-    "note": "[S] cdcl_infeasible_sound and cdcl_fuel_suffices (bounded work as a for-all theorem) are NOT proved: termination is "
-            "observed per call and measured on the mirror. Same known finding as C01.",
+    "note": "cdcl_infeasible_sound_partial (the certifying mirror answers INFEASIBLE only for unsatisfiable input: 1-UIP chains "
+            "checked by chainOk / learn_chain_sound, final unit-propagation refutation checked by upRefutes_sound) and "
+            "cdcl_fuel_suffices_partial (the mirror never exhausts the fuel Cdcl.loopFuel derived from the budgets: bounded work "
+            "as a for-all theorem) ARE proved for inputs without literal 0 / repeated literals. Open: that the GUARD exit never "
+            "fires; completeness of the CDCL search (model found whenever one exists within budget) is compared per input with "
+            "the proved DPLL. Same known finding as C01. On the 250-variable reduce_db family satisfiability comes from the "
+            "planted assignment (accepted by evalCnf), not from the DPLL.",
 })
 CHECKS.append({
     "property_id": "C05",
